@@ -7,6 +7,7 @@ import (
 	"fmt"
 	"sort"
 	"strings"
+	"sync/atomic"
 	"testing"
 
 	"github.com/cockroachdb/pebble"
@@ -39,7 +40,7 @@ type h struct {
 	v     *pebble.VerifPipeline
 	seq   []uint64
 	errs  []error
-	done  []bool
+	done  []atomic.Bool // read by readers while committers run: goes through the scheduler shims
 	visAt []uint64 // visible seqnum right after Commit i returned
 	reads [][]read
 }
@@ -52,7 +53,7 @@ func (s *h) Setup() {
 		}
 	}
 	n := len(s.sc.batches)
-	s.seq, s.errs, s.done, s.visAt = make([]uint64, n), make([]error, n), make([]bool, n), make([]uint64, n)
+	s.seq, s.errs, s.done, s.visAt = make([]uint64, n), make([]error, n), make([]atomic.Bool, n), make([]uint64, n)
 	s.reads = make([][]read, len(s.sc.readers))
 }
 
@@ -63,14 +64,17 @@ func (s *h) Threads() []func() {
 		fs = append(fs, func() {
 			s.seq[i], s.errs[i] = s.v.Commit(s.sc.batches[i].keys, fmt.Sprintf("b%d", i), s.sc.batches[i].sync)
 			s.visAt[i] = s.v.Visible()
-			s.done[i] = true
+			s.done[i].Store(true)
 		})
 	}
 	for ri, kind := range s.sc.readers {
 		ri, kind := ri, kind
 		fs = append(fs, func() {
 			for _, dir := range strings.Split(kind, "-") {
-				r := read{done: append([]bool(nil), s.done...)}
+				r := read{done: make([]bool, len(s.done))}
+				for i := range s.done {
+					r.done[i] = s.done[i].Load()
+				}
 				r.visible, r.kvs = s.v.Scan(dir == "bwd")
 				s.reads[ri] = append(s.reads[ri], r)
 			}
@@ -91,7 +95,7 @@ func judge(hh vsched.Harness, x *vsched.Exec) (string, string, string) {
 		if s.errs[i] != nil {
 			return "err", "commit-error", s.errs[i].Error()
 		}
-		if !s.done[i] {
+		if !s.done[i].Load() {
 			return "hang", "commit-did-not-return", fmt.Sprint(i)
 		}
 		// read-your-writes at the pipeline level: when Commit returns the batch is published
